@@ -1,4 +1,4 @@
-use super::allocator::{BlockAllocator, FileStateTracker};
+use super::allocator::{BlockAllocator, BlockStateTracker, FileStateTracker};
 use super::reader::Reader;
 use crate::wal::block::Block;
 #[cfg(target_os = "linux")]
@@ -89,7 +89,15 @@ impl Writer {
             let mut sealed = block.clone();
             sealed.used = *cur;
             sealed.mmap.flush()?;
-            let _ = self.reader.append_block_to_chain(&self.col, sealed);
+            if sealed.used == 0 {
+                // Nothing was ever written to this block (the first entry needed a larger
+                // one). Recovery cannot see an empty block, so keeping it in the reader
+                // chain would shift the persisted chain position of the consumer after a
+                // restart; treat it as consumed instead.
+                BlockStateTracker::set_checkpointed_true(sealed.id as usize);
+            } else {
+                let _ = self.reader.append_block_to_chain(&self.col, sealed);
+            }
             debug_print!("[writer] appended sealed block to chain: col={}", self.col);
             // switch to new block
             debug_print!(
@@ -251,7 +259,12 @@ impl Writer {
                 let mut sealed = block.clone();
                 sealed.used = planning_offset;
                 sealed.mmap.flush()?;
-                let _ = self.reader.append_block_to_chain(&self.col, sealed);
+                if sealed.used == 0 {
+                    // see Writer::write: an empty block never enters the reader chain
+                    BlockStateTracker::set_checkpointed_true(sealed.id as usize);
+                } else {
+                    let _ = self.reader.append_block_to_chain(&self.col, sealed);
+                }
 
                 // Allocate new block
                 // SAFETY: We hold locks, so this writer has exclusive ownership
